@@ -63,8 +63,8 @@ func init() {
 		Assumptions: []string{"names are declared (parameter or first statements) before any loop of the function body, so static and dynamic lookup order cannot differ (DESIGN.md 4.3 rule 1)"},
 		Families: []core.Family{
 			{Name: "corpus", Count: func(string) int { return len(corpusSessions()) * 2 * len(stressModes) }, Run: func(_ *core.Ctx, idx int) core.Result { return corpusCase("C04", idx, true) }},
-			{Name: "scope", Count: countFn(4000, 500000), Run: c04Scope},
-			{Name: "typed", Count: countFn(2000, 200000), Run: c04Typed},
+			{Name: "scope", Count: countFn(9000, 500000), Run: c04Scope},
+			{Name: "typed", Count: countFn(5000, 200000), Run: c04Typed},
 		},
 		Floors: []core.Floor{{Key: "statements_compared", Quick: 30000, Thor: 3000000}, {Key: "functions_defined", Quick: 8000, Thor: 800000}, {Key: "escaped_closures_called", Quick: 1000, Thor: 100000}, {Key: "tag:scope:", Quick: 2, Thor: 2}, {Key: "nontrivial", Quick: 3000, Thor: 300000}},
 	})
